@@ -312,6 +312,12 @@ class AEval:
                 if not good:
                     return v
                 return self.apply(self.ev(args[0], env, depth), [inner], depth)
+            if name == "or_else":
+                return v if good else self.apply(self.ev(args[0], env, depth), [] if is_opt else list(v[2] or []), depth)
+            if name == "or":
+                return v if good else self.ev(args[0], env, depth)
+            if name == "and":
+                return self.ev(args[0], env, depth) if good else v
             if name == "map_or":
                 return self.apply(self.ev(args[1], env, depth), [inner], depth) if good else self.ev(args[0], env, depth)
             if name == "map_or_else":
@@ -452,7 +458,33 @@ class AEval:
             raise Unknown("if condition undetermined")
         return v[1]
 
+    def deref_impl(self, ty):
+        """the crate's `impl Deref for T` (T given as a type string, references and lifetimes ignored)"""
+        import re as _re
+        ty = _re.sub(r"'[\w{}]+ ", "", ty or "")
+        while ty.startswith("&"):
+            ty = ty[1:].lstrip()
+            if ty.startswith("mut "):
+                ty = ty[4:]
+        m = [ff for ff in self.facts.hir_fns() if ff.get("impl_trait_path") == "core::ops::deref::Deref" and ff.get("name") == "deref"
+             and _re.sub(r"'[\w{}]+ ", "", ff.get("impl_self") or "").split("<")[0] == ty.split("<")[0]]
+        return m[0] if len(m) == 1 else None
+
     def ev(self, e, env, depth=0):
+        e0 = strip(e)
+        v = self.ev0(e0, env, depth)
+        if e0.get("overloaded_deref"):
+            # an auto-deref adjustment through a Deref impl of the crate (`&Newtype` used where `&u16` is expected)
+            ty = e0.get("ty")
+            for _tgt in e0["overloaded_deref"]:
+                di = self.deref_impl(ty)
+                if di is None:
+                    raise Unknown("overloaded deref of " + str(ty))
+                v = self.call_fn(di["path"], [v], depth + 1)
+                ty = _tgt
+        return v
+
+    def ev0(self, e, env, depth=0):
         e = strip(e)
         k = e["k"]
         if k == "local":
@@ -480,6 +512,11 @@ class AEval:
         if k == "addrof":
             return self.ev(e["x"], env, depth)
         if k == "un" and e["op"] == "*":
+            if e.get("overload"):
+                di = self.deref_impl(strip(e["a"]).get("ty"))
+                if di is None:
+                    raise Unknown("overloaded * on " + str(strip(e["a"]).get("ty")))
+                return self.call_fn(di["path"], [self.ev(e["a"], env, depth)], depth + 1)
             return self.ev(e["a"], env, depth)
         if k == "un" and e["op"] == "!":
             v = self.ev(e["a"], env, depth)
